@@ -68,6 +68,9 @@ pub enum ModifyDeadlineError {
 pub enum DeleteError {
     #[error("The subscription is closed")]
     Closed,
+
+    #[error("The subscription does not exist")]
+    DoesNotExist,
 }
 
 /// Errors for getting stats.
